@@ -88,7 +88,7 @@ simple("C19", "fault_enumeration",
 
 simple("C06", "exploration",
        "seeded random curves evaluated through the real curve objects over scripted sensors: linear min/max and step curves at boundary temperatures (+-0.5/1 m-degree, "
-       "+-1 degree), +-0, +-1e-300, +-1e300, +-MaxFloat64/4 and random values against a float64 reference (|v - lerp| < 1 resp. <= 0.5+1e-3); function trees (6 types, 1..8 members, "
+       "+-1 degree), +-0, +-1e-300, +-1e300, +-MaxFloat64/4 and random values against a float64 reference (|v - lerp| < 1; the rounding mode is not part of the statement); function trees (6 types, 1..8 members, "
        "depth <= 4, shared stateless leaves) checked compositionally at every node in exact integers; PID curves against an independent model of the loop on a virtual clock "
        "(dt 1 ms..1 h); non-trivial: linear curve hit all three regions / step curve with >= 2 steps / function tree / PID trajectory with an unsaturated output; distinct by content hash",
        TRUST_L1 + ["PID cases whose pre-truncation value is within 1e-9 of an integer are skipped and counted", "dt > 0 (dt = 0 is exercised under C01)"])
